@@ -118,6 +118,10 @@ def correspond(ctx, probe, p, chunks, what):
     """Model vs real code on one chunk list (any input). Returns the model outcome."""
     m = conn.model_outcome(ctx.km.call("conn_feed", p, chunks))
     r = conn.parse_ok(probe.ask("M %s %s" % (p.hex(), " ".join(conn.hx(c) for c in chunks)))[0])
+    if r[0] == "crash" and m[0] in ("oob", "fuel"):
+        # the model predicts exactly this: a header whose PayloadSize wraps the uint32 message size (K-C14-1 / K-C14-2)
+        ctx.count("crash_predicted_by_model_%s" % m[0])
+        return m, r
     if m != r[:4] and len(ctx.broken) < MAX_REPORTS:
         ctx.tie_broken("correspondence IConnection::OnDataReceived vs Conn.feed (%s)" % what,
                        {"preamble": p.hex(), "chunks": [c.hex() for c in chunks], "model": repr(m), "code": repr(r)[:800]})
@@ -250,8 +254,10 @@ def _run(ctx, probe, exe):
             chunks = conn.random_chunking(rng, s)
             m, r = correspond(ctx, probe, p, chunks, "malformed stream")
             if r[0] == "crash" and not enough(ctx):
+                predicted = m[0] in ("oob", "fuel")
                 ctx.violation("sanitizer report / crash of the real code on a malformed stream",
-                              {"preamble": p, "chunks": chunks, "expected": None, "detail": r[4][:600], "finding_key": "memory-error"})
+                              {"preamble": p, "chunks": chunks, "expected": None, "detail": r[4][:600], "model_status": m[0],
+                               "finding_key": "oversize-header:garbage" if predicted else "memory-error"})
             ctx.case((p, tuple(chunks)), nontrivial=bool(m[3]) or bool(m[1]))
             ctx.count("malformed_%s" % ("delivers" if m[3] else "pending" if m[1] else "skipped"))
             if len(recheck) < 10 and i % 7 == 0:
